@@ -253,11 +253,11 @@ Qed.
 
 (* ---- agree transfers to holds ------------------------------------------------------------------------ *)
 Theorem agree_implies_holds (c : c03_case) (r : c03_run) :
-  wf_case c -> run_agree c r = true -> run_holds c r = true.
+  wf_case c -> run_agree c r = true -> run_holds_core c r = true.
 Proof.
   intros WF A. unfold run_agree in A.
   destruct (model_outcome gen_table c (ru_order r)) as [o|] eqn:MO; [|discriminate].
-  apply outcome_eqb_eq in A. unfold run_holds. rewrite <- A.
+  apply outcome_eqb_eq in A. unfold run_holds_core. rewrite <- A.
   apply (model_outcome_holds gen_table c (ru_order r) o WF MO).
 Qed.
 
@@ -285,7 +285,7 @@ Qed.
 
 (* what the check computes: the agree bit implies the holds bit *)
 Theorem verdict_agree_implies_holds (c : c03_case) :
-  fst (fst (c03_verdict c)) = true -> snd (fst (c03_verdict c)) = true.
+  fst (fst (c03_verdict c)) = true -> forallb (run_holds_core c) (ca_runs c) = true.
 Proof.
   unfold c03_verdict. simpl. rewrite andb_true_iff. intros [W A]. apply wf_caseb_ok in W.
   rewrite forallb_forall in *. intros r Hr. apply agree_implies_holds; auto.
